@@ -30,6 +30,12 @@ _ITEM = {'table': 'column', 'indexes': 'index', 'enum': 'enum_item', 'group': 'g
          'note': 'note_text', 'top': 'ref_short'}
 
 
+def mask(ln: str) -> str:
+    """the line with the inside of every string literal, quoted identifier and backtick expression blanked out (same length):
+    what is left are the tokens a fault may touch"""
+    return re.sub(r"'(?:[^'\\]|\\.)*'|\"[^\"]*\"|`[^`]*`", lambda m: m.group(0)[0] + 'x' * (len(m.group(0)) - 2) + m.group(0)[-1] if len(m.group(0)) > 1 else m.group(0), ln)
+
+
 def label(lines: List[str]) -> List[Dict[str, Any]]:
     """kind, enclosing block and features of every line of a canonically printed document"""
     out = []
@@ -78,10 +84,10 @@ def label(lines: List[str]) -> List[Dict[str, Any]]:
             continue
         if kind not in ('blank', 'close', 'string'):
             code = re.sub(r"'(?:[^'\\]|\\.)*'", "''", s)
-            if re.search(r'\[.*\]', code):
+            bare = mask(s)
+            if re.search(r'\[.*\]', bare):
                 feats.append('settings')
-            bare = re.sub(r'"[^"]*"|`[^`]*`', '', code)
-            if bare.count('[') + bare.count(']') > 0 and (bare.count('['), bare.count(']')) == (s.count('['), s.count(']')):
+            if bare.count('[') + bare.count(']') > 0:
                 feats.append('brackets_outside_literals')
             if re.search(r'\btype: \w+', code):
                 feats.append('index_type')
@@ -118,7 +124,8 @@ def apply_fault(lines: List[str], i: int, fault: str, variant: int) -> List[str]
         m = re.match(r'(\s*(?:"[^"]*"|\w+))', ln)
         new[i] = m.group(1)
     elif fault == 'unknown_setting':
-        new[i] = ln.replace('[', ['[zzz, ', "[zzz: 'v', ", '[zzz: 1, '][variant % 3], 1)
+        k = mask(ln).index('[')
+        new[i] = ln[:k] + ['[zzz, ', "[zzz: 'v', ", '[zzz: 1, '][variant % 3] + ln[k + 1:]
     elif fault == 'unknown_index_type':
         new[i] = re.sub(r'\btype: \w+', 'type: zzz', ln, count=1)
     elif fault == 'bad_ref_operator':
@@ -128,17 +135,18 @@ def apply_fault(lines: List[str], i: int, fault: str, variant: int) -> List[str]
     elif fault == 'bad_colour':
         new[i] = re.sub(r'#[0-9a-fA-F]+', ['#ab', '#abcd', '#ggg', '#abcdefa', '#12345', '#'][variant % 6], ln, count=1)
     elif fault == 'delete_open_bracket':
-        new[i] = ln.replace('[', '', 1)
+        k = mask(ln).index('[')
+        new[i] = ln[:k] + ln[k + 1:]
     elif fault == 'delete_close_bracket':
-        k = ln.rindex(']')
+        k = mask(ln).rindex(']')
         new[i] = ln[:k] + ln[k + 1:]
     elif fault == 'duplicate_open_bracket':
         # every opening bracket of the line in turn (settings list, array suffix of a type), glued or spaced
-        ks = [m.start() for m in re.finditer(r'\[', ln)]
+        ks = [m.start() for m in re.finditer(r'\[', mask(ln))]
         k = ks[(variant // 2) % len(ks)]
         new[i] = ln[:k] + ('[[' if variant % 2 == 0 else '[ [') + ln[k + 1:]
     elif fault == 'duplicate_close_bracket':
-        ks = [m.start() for m in re.finditer(r'\]', ln)]
+        ks = [m.start() for m in re.finditer(r'\]', mask(ln))]
         k = ks[(variant // 2) % len(ks)]
         new[i] = ln[:k] + (']]' if variant % 2 == 0 else '] ]') + ln[k + 1:]
     return new
@@ -217,6 +225,9 @@ def main(argv: List[str]) -> int:
             rep.violation({k: it[k] for k in it if k != 'tid'}, {'failing_clause': v, 'outcome': r['outcome']})
     rep.notes['documents'] = len(ds)
     rep.notes['judged_per_fault_kind'] = per
+    never = [f for f in FAULTS if not per.get(f)]
+    if never:
+        raise core.Machinery('C07: fault kinds never judged: %s' % never)
     rep.notes['pairs_not_listed_as_provably_invalid'] = ood
     k = next(t for t in items if items[t]['fault'] == 'delete_close_brace')
     rep.samples.append({'fault': items[k]['fault'], 'site': items[k]['site'], 'text': items[k]['text'][:800]})
